@@ -35,7 +35,7 @@ SpecPost(e) ==
     [] e.k = "plugout" -> PlugOutputs(g, e.list)
     [] e.k = "plugin1" -> PlugInputs(g, OneList(NI(g), e.i, e.b))
     [] e.k = "plugout1" -> PlugOutputs(g, OneList(NO(g), e.i, e.b))
-SameUpToNew(spec, impl, old) ==
+SameUpToNew4(spec, impl, old) ==
   LET ns == spec.vs \ old
       ni == impl.vs \ old
   IN /\ Cardinality(ns) = Cardinality(ni) /\ spec.vs \cap old = impl.vs \cap old
@@ -59,7 +59,7 @@ Step(e) ==
            LET post == FromAbs(e.post)
                ok == Den(post) = Expected(e)
                inv == e.k # "adjoint" \/ e.involution
-               same == SameUpToNew(SpecPost(e), post, g.vs)
+               same == SameUpToNew4(SpecPost(e), post, g.vs)
            IN /\ viol' = (IF ok THEN <<>> ELSE <<<<l, "DenotesOK", e.k>>>>) \o (IF inv THEN <<>> ELSE <<<<l, "AdjointInvolution">>>>) \o viol
               /\ drift' = IF same THEN drift ELSE Append(drift, <<l, e.k, e.be>>)
               /\ stats' = [stats EXCEPT !.calls = @ + 1, !.nontrivial = @ + (IF post # g THEN 1 ELSE 0),
